@@ -437,12 +437,32 @@ Fixpoint take_while (p : N -> bool) (s : text) : text * text :=
 
 (* optional minus, a maximal run of digits and dots, white space to a line end
    (ASCII digits; Unicode digits are outside the modelled domain) *)
+Definition isdigit (c : N) : bool := ((48 <=? c) && (c <=? 57))%N.
+
+(* the optional exponent  (?:[eE][-+]?\d+)?  : the text it consumes (empty when absent) *)
+Definition exp_part (s : text) : text * text :=
+  match s with
+  | c :: r =>
+      if ((c =? 101) || (c =? 69))%N then
+        let '(sg, r1) := match r with
+                         | d :: r' => if ((d =? 45) || (d =? 43))%N then ([d], r') else ([], r)
+                         | [] => ([], r) end in
+        let '(dgs, r2) := take_while isdigit r1 in
+        match dgs with
+        | [] => ([], s)
+        | _ => (c :: sg ++ dgs, r2)
+        end
+      else ([], s)
+  | [] => ([], s)
+  end.
+
 Definition num_group (neg_ok : bool) (s : text) : option text :=
   let s := if neg_ok then match s with 45%N :: r => r | _ => s end else s in
   let '(run, rest) := take_while isdigit_dot s in
   match run with
   | [] => None
-  | _ => if ws_to_eol rest then Some run else None
+  | _ => let '(ex, rest') := exp_part rest in
+         if ws_to_eol rest' then Some (run ++ ex) else None
   end.
 
 (* re.search: leftmost position where the field matches *)
@@ -499,7 +519,8 @@ Definition parse_long_interval (el : text) : res rentry :=
   do l <- req (search_quoted (T "text") true el);
   Ok (RI s e (unesc (strip l))).
 
-(* as the source stands: a point's mark is stripped but not un-doubled *)
+(* a point's mark is stripped and un-doubled like an interval's text (undouble = true);
+   undouble = false is the reader before the repair of F2, kept for the refutation witness *)
 Definition parse_long_point (undouble : bool) (el : text) : res rentry :=
   do t <- req (search_num (T "number") true el);
   do l <- req (search_quoted (T "mark") true el);
